@@ -45,6 +45,8 @@ func checkC02(c *Ctx, r *Report) {
 	boundsRuleFor(c, r, "C02.R5.repack-bounds", []string{"Msg.PackBuffer", "PackRR"}, true, repackSkip, "re-packing a record the decoder accepted, into a caller's buffer of any size, can panic instead of returning an error", nil, repackExempt)
 	pointerRoom(c, r, "C02.R5.pointer-room", "re-packing decoded records with PackRR into a buffer that ends right behind a pointer position panics (index out of range) instead of returning ErrBuf")
 	noPrefixCopy(c, r, "C02.R2.no-prefix-copy", fns)
+	base32Agreement(c, r, "C02.R5.base32-encoding", "the decode buffer is sized for another text length than is decoded into it: re-packing an NSEC3 the decoder accepted panics inside encoding/base32")
+	noQuadraticScan(c, r, "C02.R3.no-quadratic-scan", fns)
 }
 
 func c02R1(c *Ctx, r *Report) {
